@@ -211,6 +211,10 @@ func runOnce(sc *Scenario, prefix []int, trace bool, visit func(uint64) bool) (*
 		x.Sched = vrt.S
 		sc.Body(x)
 	})
+	if r.Internal != "" {
+		fmt.Fprintf(os.Stderr, "INTERNAL: %s in scenario %s %s (prefix %v): a limit of the model, not a violation\n", r.Internal, sc.Name, sc.Params, prefix)
+		os.Exit(3)
+	}
 	if r.Panic != "" {
 		x.Fail("panic", "panic in thread: %s", r.Panic)
 	}
